@@ -48,7 +48,8 @@ class ToolResult:
         if self.rc < 0 or self.rc == 99 or self.rc == 98 or self.rc == 134:
             return True
         e = self.err
-        return b"AddressSanitizer" in e or b"ThreadSanitizer" in e or b"LeakSanitizer" in e
+        # "WARNING: AddressSanitizer failed to allocate" (allocator_may_return_null) is not an error report
+        return b"ERROR: AddressSanitizer" in e or b"WARNING: ThreadSanitizer" in e or b"ERROR: LeakSanitizer" in e or b"AddressSanitizer:DEADLYSIGNAL" in e
 
     def crash_fingerprint(self):
         e = self.err.decode("latin1", "replace")
